@@ -175,6 +175,23 @@ impl Gossip {
         #[cfg(p2panda_p2panda_verif)]
         verif_c29::schedule_point("stream:lookup-missed");
         // If there's no active handle for this topic we join the overlay from scratch.
+        //
+        // We hold the write lock from here until the new entry is stored. Like this concurrent
+        // calls can't subscribe twice: whoever comes second finds the entry of the first and
+        // takes a reference to it.
+        let mut senders = self.senders.write().await;
+        if let Some((to_gossip_tx, from_gossip_tx, guard)) = senders.get(&topic)
+            && let Some(guard) = guard.try_clone()
+        {
+            return Ok(GossipHandle::new(
+                topic,
+                max_message_size,
+                to_gossip_tx.clone(),
+                from_gossip_tx.clone(),
+                guard,
+            ));
+        }
+
         let inner = self.inner.read().await;
 
         // This guard counts the number of active handles and subscriptions for this topic. Like
@@ -211,7 +228,6 @@ impl Gossip {
         // `subscribe()` on `GossipHandle`.
         #[cfg(p2panda_p2panda_verif)]
         verif_c29::schedule_point("stream:before-insert");
-        let mut senders = self.senders.write().await;
         senders.insert(
             topic,
             (
